@@ -7,7 +7,7 @@ from .common import Oracle, Suite, errname, merge
 from . import C04
 
 GEN_UNITS = ["Ctx", "Handlers", "PyUnicode", "ContextConfig"]
-LEAN_TARGETS = ["PasslibVerif.Props.C10"]
+LEAN_TARGETS = ["PasslibVerif.Props.C10", "PasslibVerif.Props.C10Ini", "PasslibVerif.Props.C10IniConfig"]
 ASSUMPTIONS = [
     "configparser (INI reading/writing, '%' interpolation) is external; INI round trips are compared on the real code",
     "the statement skeleton of CryptContext.load is classified by the translator: a statement 'may raise' unless it is an assignment of call-free expressions or one of two whitelisted calls whose bodies are re-checked on every run",
@@ -98,11 +98,14 @@ def correspond(ctx):
     #      an explicit False, a small integer, an identifier must come back meaning the same)
     typed = [("des_crypt", "truncate_error", [True, False]), ("bcrypt", "truncate_error", [True, False]), ("bcrypt", "ident", ["2a", "2b", "2y"]),
              ("sha256_crypt", "salt_size", [0, 1, 8, 16]), ("sha512_crypt", "salt_size", [4]), ("md5_crypt", "salt_size", [0, 8]),
-             ("bcrypt", "rounds", [4, 5]), ("sha256_crypt", "rounds", [1000, 5000])]
+             ("bcrypt", "rounds", [4, 5]), ("sha256_crypt", "rounds", [1000, 5000]), ("bcrypt_sha256", "version", [1, 2]),
+             ("scrypt", "block_size", [1, 8]), ("scrypt", "parallelism", [1, 2]), ("fshp", "variant", [0, 1, 2, 3]), ("unix_disabled", "marker", ["!", "*x"]),
+             ("scram", "algs", ["sha-1,sha-256", "sha-1,md5"])]
 
     def behaviour(c, scheme, cat):
         h = c.handler(scheme, category=cat)
-        out = {a: repr(getattr(h, a, None)) for a in ("truncate_error", "default_ident", "default_salt_size", "default_rounds")}
+        out = {a: repr(getattr(h, a, None)) for a in ("truncate_error", "default_ident", "default_salt_size", "default_rounds", "version", "block_size", "parallelism",
+                                                      "default_variant", "default_marker", "default_algs")}
         try:
             hs = h.using(**({"rounds": h.min_rounds} if "rounds" in (h.setting_kwds or ()) else {})).hash("x" * 100)
             out["long-secret"] = "hashed"
@@ -347,7 +350,14 @@ def correspond(ctx):
     o_upd = Oracle(ctx, "update-spellings-and-live-vs-rebuilt")
     for tag, inp, ok, obs, exp in update_semantics_cases(rng, 25 if not ctx.thorough else 600):
         o_upd.check(tag, ok, inp, obs, exp)
-    return merge(s_key, o_rt, o_fault, o_upd)
+    res = merge(s_key, o_rt, o_fault, o_upd)
+    # ---- the text form (INI) at the level of the values: Model.CtxIni (suite `cini`)
+    from . import c10_ini
+
+    r_ini = c10_ini.correspond(ctx)
+    res["suites"].update(r_ini["suites"])
+    res["samples"] += r_ini["samples"]
+    return res
 
 
 def update_semantics_cases(rng, rounds):
@@ -445,5 +455,32 @@ def replay(ctx, inp):
         c = CryptContext(["sha256_crypt"], sha256_crypt__vary_rounds=inp["value"])
         c2 = CryptContext.from_string(c.to_string())
         return {"fails": c2.to_dict() != c.to_dict(), "observed": {"exported": c.to_string(), "reloaded": repr(c2.to_dict())}}
+    if inp.get("op") == "ini-dict":
+        # export to INI text, load, export to a dictionary: same keys, same values up to the text form of a value
+        import ast
+
+        from . import c10_ini
+
+        c10_ini.install_harness()
+        kw = ast.literal_eval(inp["kwds"])
+        try:
+            c = CryptContext(**kw)
+            d1 = c.to_dict()
+            d2 = CryptContext.from_string(c.to_string()).to_dict()
+            txt = lambda v: ", ".join(map(str, v)) if isinstance(v, (list, tuple)) else str(v)  # noqa: E731
+            same = {k: txt(v) for k, v in d1.items()} == {k: txt(v) for k, v in d2.items()}
+            return {"fails": not same, "observed": {"before": repr(d1), "after": repr(d2)}}
+        except Exception as e:  # noqa: BLE001
+            return {"fails": True, "observed": errname(e) + ": " + str(e)[:160]}
+    if inp.get("op") == "typed-option":
+        import ast
+
+        kw = ast.literal_eval(inp["kwds"])
+        try:
+            c = CryptContext(**kw)
+            c2 = CryptContext.from_string(c.to_string())
+            return {"fails": c2.to_string() != c.to_string(), "observed": {"exported": c.to_string(), "reloaded": c2.to_string()}}
+        except Exception as e:  # noqa: BLE001
+            return {"fails": True, "observed": errname(e) + ": " + str(e)[:160]}
     r = search(ctx, [], [])
     return {"fails": r is not None, "observed": r}
